@@ -463,3 +463,69 @@ Proof.
   apply Forall_forall. intros st Hst. apply in_map_iff in Hst. destruct Hst as [d [<- Hin]]. cbn beta iota.
   apply (proj2 (proj1 (Forall_forall _ _) Hd d Hin)).
 Qed.
+
+(* ---- whole linear-rk4 runs ---- *)
+Definition rk_ok (n : nat) (d : kdata (T:=R)) : Prop :=
+  unitary n (mget ROps (mofreal ROps n (kvecs d)))
+  /\ mherm n (mofreal ROps n (eH (ke0 d))) /\ mherm n (mofreal ROps n (eH (ke1 d)))
+  /\ (forall tau w, (tau = etau (ke0 d) \/ tau = etau (ke1 d)) -> aherm n (mget ROps (tvmat ROps n tau w))).
+
+(* any number of linear-rk4 passes: rho stays Hermitian with the trace it started with, whatever the hop decisions *)
+Theorem run_rk4_trace_herm n m dt maxdt start poisson (ds : list (kdata (T:=R))) : forall s sf atts,
+  run_rk4 ROps n m dt maxdt start poisson ds s = (sf, atts) -> Forall (rk_ok n) ds -> mherm n (prho s) ->
+  mherm n (prho sf) /\ mtrace ROps n (prho sf) = mtrace ROps n (prho s) /\ length atts = length ds.
+Proof.
+  induction ds as [|d ds IH]; intros s sf atts H Hok Hr.
+  - cbn in H. injection H as <- <-. repeat split; try reflexivity. exact Hr.
+  - cbn [run_rk4] in H.
+    destruct (step_rk4 ROps n m dt maxdt start poisson (kzeta d) (ke0 d) (ke1 d) (keigs d) (kvecs d) s) as [[[s1 W] hp] att] eqn:Es.
+    destruct (run_rk4 ROps n m dt maxdt start poisson ds s1) as [sf' atts'] eqn:Er. injection H as <- <-.
+    pose proof (Forall_inv Hok) as (HV & H0 & H1 & Ht). pose proof (Forall_inv_tail Hok) as Hds.
+    destruct (step_rk4_trace_herm n m dt maxdt start poisson _ _ _ _ _ s s1 W hp att Es HV H0 H1 Ht Hr) as [A B].
+    destruct (IH s1 sf' atts' Er Hds A) as (C & D & E). repeat split; [exact C | rewrite D; exact B | cbn [length]; rewrite E; reflexivity].
+Qed.
+
+(* ---- what the pass hands to the hopper ---- *)
+(* what the pass hands to the hopper: the probabilities are built from the density matrix AFTER the electronic step and from
+   the same midpoint propagator W that drove it (new velocity and old velocity), and the recorded attempt is the hopper's answer *)
+Lemma step_attempt n m dt poisson zeta e0 e1 lam Cm (s s' : tstate (T:=R)) W hp att :
+  step ROps n m dt poisson zeta e0 e1 lam Cm s = (s', W, hp, att) ->
+  let f0 := nth (pact s) (eforce e0) [] in let f1 := nth (pact s) (eforce e1) [] in
+  let v1 := advance_velocity ROps m (pv s) f0 f1 dt in
+  let rho1 := exp_step ROps n lam Cm dt (prho s) in
+  let g := gkndt ROps (row ROps n rho1 (pact s)) (colm ROps n W (pact s)) (pact s) dt in
+  W = Wmid ROps n (eH e0) (eH e1) (etau e0) (etau e1) v1 (pv s)
+  /\ fst (hopper ROps poisson g zeta) = option_map fst att
+  /\ hp = snd (hopper ROps poisson g zeta).
+Proof.
+  unfold step. cbv zeta.
+  destruct (hopper ROps poisson _ zeta) as [tg hp'] eqn:Eh. destruct tg as [t|].
+  - destruct (hop_to_it ROps m _ (pact s) t _ _) as [[a' v2] acc]. intros H. injection H as <- <- <- <-.
+    rewrite Eh. cbn. repeat split; reflexivity.
+  - intros H. injection H as <- <- <- <-. rewrite Eh. cbn. repeat split; reflexivity.
+Qed.
+
+(* ---- energy bookkeeping of a pass ---- *)
+(* whatever the hop decision of a pass - none, frustrated, accepted - kinetic energy plus the potential of the active state
+   at the end of the pass equals what the Verlet half alone produced on the old surface: hops never change the total energy *)
+Lemma step_energy_any n m dt poisson zeta e0 e1 lam Cm (s s' : tstate (T:=R)) W hp att :
+  step ROps n m dt poisson zeta e0 e1 lam Cm s = (s', W, hp, att) ->
+  let f0 := nth (pact s) (eforce e0) [] in let f1 := nth (pact s) (eforce e1) [] in
+  let v1 := advance_velocity ROps m (pv s) f0 f1 dt in
+  (forall t, att = Some (t, true) ->
+     Forall (fun mi => 0 < mi) m /\ length v1 = length m /\ length (tget (etau e1) (pact s) t) = length m
+     /\ 0 < vdot ROps (tget (etau e1) (pact s) t) (tget (etau e1) (pact s) t)) ->
+  kinetic ROps m (pv s') + vget ROps (diagE ROps n e1) (pact s') = kinetic ROps m v1 + vget ROps (diagE ROps n e1) (pact s).
+Proof.
+  intros H f0 f1 v1 Hacc.
+  destruct att as [[t [|]]|].
+  - destruct (Hacc t eq_refl) as (Hm & Hv & Hd & Hn).
+    destruct (step_hop_energy n m dt poisson zeta e0 e1 lam Cm s s' W hp t H Hm Hv Hd Hn) as [Ea Ee]. rewrite Ea. exact Ee.
+  - (* frustrated: state and velocity untouched *)
+    unfold step in H. fold f0 f1 v1 in H.
+    destruct (hopper ROps poisson _ zeta) as [tg hp'] eqn:Eh. destruct tg as [t0|]; [|discriminate].
+    destruct (hop_to_it ROps m v1 (pact s) t0 (diagE ROps n e1) (tget (etau e1) (pact s) t0)) as [[a' v2] acc] eqn:Eht.
+    injection H as Hs _ _ Ht Hacc'. subst. cbn [pv pact].
+    destruct (hop_rejected_identity m v1 _ _ (pact s) t a' v2 Eht) as [-> ->]. reflexivity.
+  - destruct (step_nuclear n m dt poisson zeta e0 e1 lam Cm s s' W hp None H) as (_ & _ & _ & En). destruct (En eq_refl) as [-> ->]. reflexivity.
+Qed.
